@@ -629,6 +629,6 @@ def body(check):
     res, info = analyse_solve(proj)
     analyse_entry_points(proj, res)
     check.inventory.update(info)
-    report(check, res, ("TS-FRESH-MAIN", "DRV-IT-STAMP", "DRV-RESET", "DRV-FORWARD", "DRV-COUNT", "DRV-DT-MIN", "DRV-CALLER-PURE"))
+    report(check, res, ("TS-FRESH-MAIN", "DRV-SNAPSHOT", "DRV-IT-STAMP", "DRV-RESET", "DRV-FORWARD", "DRV-COUNT", "DRV-DT-MIN", "DRV-CALLER-PURE"))
     # restart continues from f.it: copies must carry the iteration tag
     check.guarded("FIELD-DEEPCOPY", "field.fdata", lambda: field_deepcopy(check))
